@@ -13,7 +13,8 @@ RULE = ('write/writeln(int): every 16-bit value exhaustively (batches passed as 
         'write/writeln forms), boundary grid + Hypothesis-drawn values at 24/32/64 bit; write(bool) from every bool '
         'source; write(byte) all 256 values; write(string)/write(byte array) with lengths 0..64 and arbitrary byte '
         'contents in every storage form (const global, hoisted literal, stack literal, mutable local, byte a[n], '
-        'parameter R/RC/RW, argv array, string->const byte[] conversion, argv string), each call site placed between '
+        'parameter R/RC/RW, argv array, string->const byte[] conversion, argv string), also placed around and above address '
+        '0x8000 of the const and state sections at 16 bit; each call site placed between '
         'canaries (int/byte/bool locals, a byte array, an int array) and run at a generous stack and at the minimal '
         'stack size S_min found by binary search. Oracle: Python str(int) / exact bytes / canaries unchanged. '
         'Non-trivial: ints whose digit count differs from a neighbour (v-1 or v+1), 0, -1, MIN, MAX; arrays of length '
@@ -108,7 +109,7 @@ CANARY_OUT = b'|12345,201,true,1,2,250,4,1000,-2000,3000'
 # `ln` selects write or writeln
 
 
-def form_source(form, data, ln):
+def form_source(form, data, ln, pad=None):
     w = 'writeln' if ln else 'write'
     n = len(data)
     L = src_bytes_list(data)
@@ -217,8 +218,13 @@ def form_source(form, data, ln):
         call = '%s(a[1]);' % w
     else:
         raise AssertionError(form)
-    src = '%s\n%s\nempty @is_you(%s) {\n  %s\n  %s\n  write(\'<\'); %s write(\'>\');\n  %s\n}\n' % (
-        glob, helpers, sig, CANARY_DECL, setup, call, CANARY_PRINT)
+    first = ''
+    if pad is not None and pad[0] == 'const':
+        # a long string constant used first pushes every later constant up in the const section
+        glob = 'string padS = "%s";\n' % ('x' * pad[1]) + glob
+        first = 'if (padS.length == 0) { write(padS); }'
+    src = '%s\n%s\nempty @is_you(%s) {\n  %s\n  %s\n  %s\n  write(\'<\'); %s write(\'>\');\n  %s\n}\n' % (
+        glob, helpers, sig, first, CANARY_DECL, setup, call, CANARY_PRINT)
     return src, args
 
 
@@ -228,10 +234,12 @@ FORMS = ['const_global', 'mut_global', 'hoisted_literal', 'stack_literal', 'cons
          'string_ret', 'argv_string', 'argv_string_array']
 
 
-def check_bytes_case(stats, form, data, ln, ws, tight):
-    src, args = form_source(form, data, ln)
+def check_bytes_case(stats, form, data, ln, ws, tight, pad=None):
+    src, args = form_source(form, data, ln, pad)
     exp = b'<' + bytes(data) + (b'\n' if ln else b'') + b'>' + CANARY_OUT
-    sizes = [S0]
+    sizes = [S0 if pad is None or pad[0] != 'stack' else pad[1]]
+    if pad is not None:
+        stats.cls('placement_' + pad[0])
     if tight:
         smin = find_smin(src, args, ws)
         if smin is None:
@@ -241,15 +249,15 @@ def check_bytes_case(stats, form, data, ln, ws, tight):
         r = execute(src, args, ws=ws, S=S)
         stats.evaluated()
         stats.cls('bytes_form_' + form)
-        is_tight = S != S0
+        is_tight = S != sizes[0]
         if is_tight:
             stats.cls('bytes_at_smin')
-        if len(data) in (0, 1, 64) or is_tight:
-            stats.nt('bytes:%s:%s:%d:%d:%d' % (form, bytes(data).hex(), ln, ws, S))
+        if len(data) in (0, 1, 64) or is_tight or pad is not None:
+            stats.nt('bytes:%s:%s:%d:%d:%d:%r' % (form, bytes(data).hex(), ln, ws, S, pad))
         if r.out != exp or not r.won:
             return ('bytes:' + form + (':smin' if is_tight else ''),
-                    'form=%s ws=%d S=%d%s ln=%d data=%r: got %r flags=%r outcome=%s, expected %r then win' % (
-                        form, ws, S, ' (=S_min)' if is_tight else '', ln, bytes(data), r.out, r.flags, r.outcome, exp))
+                    'form=%s ws=%d S=%d%s ln=%d pad=%r data=%r: got %r flags=%r outcome=%s, expected %r then win' % (
+                        form, ws, S, ' (=S_min)' if is_tight else '', ln, pad, bytes(data), r.out, r.flags, r.outcome, exp))
     return None
 
 
@@ -322,6 +330,8 @@ def shards(tier):
         out.append(('bytes', k))
     for k in range(4 if tier == 'quick' else 16):
         out.append(('int_site', k))
+    out.append(('placement', 0))
+    out.append(('placement', 1))
     return out
 
 
@@ -414,6 +424,40 @@ def run_shard(desc, seed, tier):
         search(strat, chk, seed=derive_seed(seed, 'C17', kind, k), max_examples=50 if tier == 'quick' else 300,
                stats=stats, to_case=lambda v, m: {'kind': 'bytes', 'value': list(v), 'message': m})
         return stats
+    if kind == 'placement':
+        # 16-bit only: data placed around and above the middle of the address space (0x8000), in the const
+        # section (behind a long string constant) and in the state section (behind a maximal stack)
+        import random
+        rnd = random.Random(repr((seed, k)))
+        const_forms = ['const_global', 'hoisted_literal', 'const_local', 'param_RC', 'string_literal', 'string_global', 'string_local',
+                       'string_as_bytes', 'string_to_const_bytes_var', 'string_elem', 'string_ret']
+        state_forms = ['mut_global', 'param_RW', 'param_RW_as_const']
+        cases = []
+        for form in const_forms:
+            for n in (1, 7, 64):
+                # datum starting just below, exactly at, straddling and well above 0x8000 (length word = 2 bytes first)
+                for start in (0x8000 - 2 - n, 0x8000 - 2 - n // 2, 0x8000 - 2, 0x8000, 0x8000 + 300):
+                    cases.append((form, n, ('const', max(1, start - 2 - 2))))
+        for form in state_forms:
+            for n in (1, 7, 64):
+                for S in (16378, 16370, 16360, 16340):
+                    cases.append((form, n, ('stack', S)))
+        rnd.shuffle(cases)
+        take = cases[k::2]
+        if tier == 'quick':
+            take = take[:45]
+        for form, n, pad in take:
+            data = [rnd.randint(0, 255) for _ in range(n)]
+            if form.startswith('string') or True:
+                data = [b if b != 0 else 1 for b in data]
+            try:
+                r = check_bytes_case(stats, form, data, rnd.random() < 0.5, 2, False, pad)
+            except Discard:
+                continue
+            if r:
+                stats.violation({'kind': 'bytes_placed', 'value': [form, data, False, 2, False, list(pad)], 'message': r[1], 'signature': r[0]})
+        stats.sample({'kind': 'placement', 'forms': const_forms + state_forms, 'pads': 'const string of ~32 KiB / stack of 16340..16378 words'})
+        return stats
     if kind == 'int_site':
         strat = st.sampled_from(WORD_SIZES).flatmap(lambda ws: st.tuples(
             st.one_of(st.sampled_from(boundary_ints(ws)), st.integers(-(1 << (8 * ws - 1)), (1 << (8 * ws - 1)) - 1)),
@@ -440,6 +484,8 @@ def replay(case):
             r = check_int_batch(st_, v[0], v[1], v[2])
         elif kind == 'bytes':
             r = check_bytes_case(st_, v[0], v[1], v[2], v[3], v[4])
+        elif kind == 'bytes_placed':
+            r = check_bytes_case(st_, v[0], v[1], v[2], v[3], v[4], tuple(v[5]))
         elif kind == 'int_site':
             r = check_int_site(st_, v[0], v[1], v[2], v[3])
         elif kind == 'bool':
